@@ -111,7 +111,7 @@ def run(prog, rep):
     link_every_iteration(prog, rep, "PROV-7")
     sd = W.lookup_method("save_document")
     g = build_cfg(sd)
-    dx = Expander(sd, g)
+    dx = Expander(sd, g, inline=prog)
     me = sd.params[0]
     cn = sd.params[2]
     name_ok = any(isinstance(n, ast.Assign) and unparse(n.targets[0]) == cn and dx.text(n.value) == "URIRef(ODML_NS + str(%s.id))" % sd.params[1]
